@@ -368,6 +368,7 @@ def check(ctx):
                           str(e), NUM, fn.lineno)
     _resize_discr(rep, model)
     _wiring(rep, model)
+    _nd(rep, model, ctx.tier == 'thorough')
     return rep
 
 
@@ -543,3 +544,113 @@ def _wiring(rep, model):
     else:
         rep.undecided('R4', cons, 'resize_array call not found', ci.rel,
                       fwd.lineno)
+
+
+# --------------------------------------------------------------------------
+# R5: several axes at once.  The n-d result must be the separable
+# application of the (already verified) one-axis rule along every axis --
+# including the "corner" blocks that are extensions of extensions.
+def _nd(rep, model, thorough):
+    import numpy as _np
+    from ..namodel import NA, NAHooks, NAInterp, symbols
+
+    fn = model.ctx.func(NUM, 'resize_array')
+
+    class H(NAHooks):
+        def on_call(self, interp, f, args, kwargs, node):
+            if isinstance(f, Func) and \
+                    f.name == 'normalized_scalar_param_list':
+                p, n = args[0], args[1]
+                return list(p) if isinstance(p, (list, tuple)) else [p] * n
+            return NotImplemented
+
+        def on_name(self, interp, name):
+            if name == 'safe_int_conv':
+                return Builtin('safe_int_conv', lambda v: v)
+            return NotImplemented
+
+    def apply_axis(A, axis, M, consts, transpose):
+        """Apply the one-axis matrix (rows = outputs) along ``axis``."""
+        if transpose:
+            rows = [[M[i][j] for i in range(len(M))]
+                    for j in range(len(M[0]))]
+            consts = [Fr(0)] * len(rows)
+        else:
+            rows = M
+        shp = list(A.shape)
+        shp[axis] = len(rows)
+        out = _np.empty(shp, dtype=object)
+        for idx in _np.ndindex(*shp):
+            tot = Rat.const(consts[idx[axis]])
+            for j, c in enumerate(rows[idx[axis]]):
+                if c != 0:
+                    src = list(idx)
+                    src[axis] = j
+                    tot = tot + to_rat(A[tuple(src)]) * Rat.const(c)
+            out[idx] = tot
+        return out
+
+    configs = [((2, 3), (4, 4)), ((2, 2, 2), (3, 3, 3))]
+    if thorough:
+        configs.append(((2, 3, 2), (4, 4, 3)))
+    n = 0
+    for shape_in, shape_out in configs:
+        for mode in ('constant', 'periodic', 'symmetric', 'order0',
+                     'order1'):
+            for direction in ('forward', 'adjoint'):
+                offs = [range(so - si + 1) for si, so in zip(shape_in,
+                                                             shape_out)]
+                bad = []
+                cnt = 0
+                for offset in itertools.product(*offs):
+                    if not all(admissible(si, so, o, mode) for si, so, o in
+                               zip(shape_in, shape_out, offset)):
+                        continue
+                    cnt += 1
+                    n += 1
+                    refs = [reference(si, so, o, mode)
+                            for si, so, o in zip(shape_in, shape_out,
+                                                 offset)]
+                    if direction == 'forward':
+                        x = symbols('x', shape_in)
+                        want = x.a
+                        for ax, (M, cs) in enumerate(refs):
+                            want = apply_axis(want, ax, M, cs, False)
+                        args = [x, tuple(shape_out)]
+                    else:
+                        x = symbols('y', shape_out)
+                        want = x.a
+                        for ax, (M, cs) in enumerate(refs):
+                            want = apply_axis(want, ax, M, cs, True)
+                        args = [x, tuple(shape_in)]
+                    try:
+                        I = NAInterp(model, {}, H())
+                        out = I.call_func(
+                            Func(fn, I.env_of(NUM), None), args,
+                            {'offset': list(offset), 'pad_mode': mode,
+                             'direction': direction})
+                    except PyRaise as e:
+                        bad.append('offset %r: raises %s' % (offset, e.name))
+                        continue
+                    if not isinstance(out, NA) or out.a.shape != want.shape:
+                        bad.append('offset %r: result %r' % (offset, out))
+                        continue
+                    for idx in _np.ndindex(*want.shape):
+                        g = out.a[idx]
+                        if g is None or not (to_rat(g) - to_rat(
+                                want[idx])).is_zero():
+                            bad.append('offset %r: entry %r is %r, the '
+                                       'separable rule gives %r'
+                                       % (offset, idx, g, want[idx]))
+                            break
+                cons = 'resize_array[%s,%s,%s->%s]' % (
+                    mode, direction, 'x'.join(map(str, shape_in)),
+                    'x'.join(map(str, shape_out)))
+                if bad:
+                    rep.violation('R5', 'resize_array[%s]' % mode,
+                                  '%s: %d of %d offsets fail; first: %s'
+                                  % (cons, len(bad), cnt, bad[0]), NUM,
+                                  fn.lineno)
+                else:
+                    rep.holds('R5', cons, '%d offsets' % cnt)
+    rep.floor('R5', 'multi-axis configurations', n, 100)
